@@ -10,7 +10,7 @@ from ..strat import uni, logu
 
 META = dict(
     technique='Hypothesis-generated supersonic top/bottom states (all four morphologies, unequal gammas, non-zero flow angles); independent oblique-shock and '
-              'Prandtl-Meyer relations recomputed from the upstream state and the returned downstream state / wave angles',
+              'Prandtl-Meyer relations recomputed from the upstream state and the returned downstream state / wave angles; coverage-guided supplement: the same strategy and oracle driven by atheris/libFuzzer through Hypothesis fuzz_one_input (obligations *-atheris)',
     rule='cases = (top and bottom state: pressure, density, Mach in [1.5,4], flow angle in +-12 deg, gamma, points by polar angle in every region, x > 0); '
          'oracle = equal pressure and flow direction across the slip line; for each shock: density and Mach ratios and the turning angle from theta-beta-M with the '
          'normal Mach number implied by the returned pressure ratio, and the shock lying where the returned fields change; for each fan: constant entropy and '
